@@ -1105,6 +1105,16 @@ func mapChoice2Skip(a, b Value, f func(Value, Value) (Value, bool), bad *[]*Term
 	if len(out) == 0 {
 		return nil
 	}
+	allInt := len(out) > 4
+	for _, o := range out {
+		if _, ok := o.v.(int64); !ok {
+			allInt = false
+			break
+		}
+	}
+	if allInt {
+		return normChoice(out)
+	}
 	// merge into ite chain
 	res := out[len(out)-1].v
 	for i := len(out) - 2; i >= 0; i-- {
